@@ -629,6 +629,11 @@ impl Callbacks for Dump {
 
         for ldid in tcx.hir_body_owners() {
             let dk = tcx.def_kind(ldid);
+            if matches!(dk, DefKind::Const) && !tcx.generics_of(ldid).requires_monomorphization(tcx) {
+                // every free `const` item is evaluated (not only those used as operands): a table built from other
+                // constants must be readable back into their names
+                named_consts.insert(ldid.to_def_id());
+            }
             if !matches!(dk, DefKind::Fn | DefKind::AssocFn | DefKind::Closure | DefKind::SyntheticCoroutineBody) {
                 continue;
             }
@@ -780,6 +785,32 @@ impl Callbacks for Dump {
                 if let Ok(cv) = tcx.const_eval_poly(*did) {
                     match cv {
                         ConstValue::Scalar(mir::interpret::Scalar::Int(si)) => push_scalar_int(si, ty, &mut o),
+                        ConstValue::Indirect { alloc_id, offset } if int_array_elem(tcx, ty).is_some() => {
+                            // `const X: [i64; N] = [..]`: the element values, little endian in the constant's allocation
+                            let (esz, signed, n) = int_array_elem(tcx, ty).unwrap();
+                            if let mir::interpret::GlobalAlloc::Memory(mem) = tcx.global_alloc(alloc_id) {
+                                let a = mem.inner();
+                                let start = offset.bytes() as usize;
+                                let end = start + esz * n;
+                                if end <= a.len() {
+                                    let bytes = a.inspect_with_uninit_and_ptr_outside_interpreter(start..end);
+                                    let mut vals = Vec::new();
+                                    for i in 0..n {
+                                        let mut v: u128 = 0;
+                                        for (k, b) in bytes[i * esz..(i + 1) * esz].iter().enumerate() {
+                                            v |= (*b as u128) << (8 * k);
+                                        }
+                                        let iv: i128 = if signed && esz < 16 && (v >> (8 * esz - 1)) & 1 == 1 {
+                                            (v as i128) - (1i128 << (8 * esz))
+                                        } else {
+                                            v as i128
+                                        };
+                                        vals.push(J::Int(iv));
+                                    }
+                                    o.push(("arr", J::Arr(vals)));
+                                }
+                            }
+                        }
                         ConstValue::Slice { .. } | ConstValue::Indirect { .. } if is_str_ref(ty) => {
                             if let Some(bytes) = cv.try_get_slice_bytes_for_diagnostics(tcx) {
                                 if let Ok(s) = std::str::from_utf8(bytes) {
@@ -816,6 +847,22 @@ impl Callbacks for Dump {
         std::fs::rename(&tmp, &path).expect("rename facts");
         Compilation::Continue
     }
+}
+
+/// (element byte size, signed, length) of `[iN; LEN]` / `[uN; LEN]` with a known length
+fn int_array_elem<'tcx>(tcx: TyCtxt<'tcx>, ty: Ty<'tcx>) -> Option<(usize, bool, usize)> {
+    if let ty::Array(elem, len) = ty.kind() {
+        let n = len.try_to_target_usize(tcx)?;
+        let (sz, signed) = match elem.kind() {
+            ty::Int(i) => (i.bit_width().unwrap_or(64) as usize / 8, true),
+            ty::Uint(u) => (u.bit_width().unwrap_or(64) as usize / 8, false),
+            _ => return None,
+        };
+        if n <= 4096 {
+            return Some((sz, signed, n as usize));
+        }
+    }
+    None
 }
 
 fn is_str_ref(ty: Ty<'_>) -> bool {
